@@ -46,7 +46,7 @@ def snapshot_config(J):
         "mfm": cfg.get_info(J["PartialMatchingConfig"].MnemonicsFullMatch),
         "ofm": cfg.get_info(J["PartialMatchingConfig"].OperandsFullMatch),
         "style": style.name if style is not None else None,
-        "range": None if rng is None else [format(rng.min.hex, "x"), format(rng.max.hex, "x")],
+        "range": [] if rng is None else [format(rng.min.hex, "x"), format(rng.max.hex, "x")],
         "sections": cfg.get_info("sections"),
     }
 
@@ -99,9 +99,14 @@ def run_rule(job, ri, lis, listing_paths, tmp):
     """Executed in a forked child: one rule against the listings `lis`."""
     J = _imports()
     rule = job["rules"][ri]
-    rule_path = os.path.join(tmp, f"r{os.getpid()}.yaml")
-    with open(rule_path, "w", encoding="utf-8") as f:
-        f.write(rule["yaml"])
+    for k, v in (rule.get("env") or {}).items():   # confined to this forked child
+        os.environ[k] = v
+    if "rule_path" in rule:                        # used as is (missing file, directory, ...)
+        rule_path = rule["rule_path"]
+    else:
+        rule_path = os.path.join(tmp, f"r{os.getpid()}.yaml")
+        with open(rule_path, "w", encoding="utf-8") as f:
+            f.write(rule["yaml"])
     macro_paths = list(rule.get("macro_paths") or [])
     own = len(macro_paths)
     for n, text in enumerate(rule.get("macros") or []):
@@ -116,7 +121,7 @@ def run_rule(job, ri, lis, listing_paths, tmp):
                      job.get("want_regex", False), job.get("stream_only", False))
         o["r"], o["l"] = ri, li
         out.append(o)
-    for p in [rule_path] + macro_paths[own:]:
+    for p in ([] if "rule_path" in rule else [rule_path]) + macro_paths[own:]:
         os.unlink(p)
     return out
 
@@ -141,6 +146,42 @@ def _isolated(fn, *args):
         data = f.read()
     os.waitpid(pid, 0)
     return json.loads(data)
+
+
+def run_history(job, ops, listing_paths, tmp):
+    """Executed in a forked child: a sequence of complete operations in ONE process."""
+    J = _imports()
+    out = []
+    for n, (ri, li) in enumerate(ops):
+        rule = job["rules"][ri]
+        rule_path = os.path.join(tmp, f"h{os.getpid()}.{n}.yaml")
+        with open(rule_path, "w", encoding="utf-8") as f:
+            f.write(rule["yaml"])
+        macro_paths = list(rule.get("macro_paths") or [])
+        own = len(macro_paths)
+        for k, text in enumerate(rule.get("macros") or []):
+            mp = os.path.join(tmp, f"h{os.getpid()}.{n}.m{k}.yaml")
+            with open(mp, "w", encoding="utf-8") as f:
+                f.write(text)
+            macro_paths.append(mp)
+        inp, binary = listing_paths[li]
+        o = run_pair(J, rule_path, macro_paths, inp, binary, job.get("fresh", False))
+        o["r"], o["l"] = ri, li
+        out.append(o)
+        for p in [rule_path] + macro_paths[own:]:
+            os.unlink(p)
+    return out
+
+
+def _work_hist(chunk):
+    job, listing_paths, tmp = _G["job"], _G["lp"], _G["tmp"]
+    out = []
+    for hi, ops in chunk:
+        res = _isolated(run_history, job, ops, listing_paths, tmp)
+        if isinstance(res, dict) and "__crash__" in res:
+            raise RuntimeError(res["__crash__"])
+        out.append({"h": hi, "events": res})
+    return out
 
 
 _G = {}
@@ -174,6 +215,20 @@ def main():
             with open(p, "w", encoding="utf-8") as f:
                 f.write(l["text"])
             listing_paths.append((p, False))
+    procs = int(job.get("procs", min(16, os.cpu_count() or 4)))
+    if "histories" in job:
+        items = list(enumerate(job["histories"]))
+        nchunks = max(1, min(len(items), procs * 8))
+        chunks = [items[i::nchunks] for i in range(nchunks)]
+        _G.update(job=job, lp=listing_paths, tmp=tmp)
+        with multiprocessing.get_context("fork").Pool(procs) as pool:
+            results = pool.map(_work_hist, chunks)
+        flat = sorted((h for c in results for h in c), key=lambda h: h["h"])
+        with open(out_path, "w") as f:
+            json.dump(flat, f)
+        import shutil
+        shutil.rmtree(tmp, ignore_errors=True)
+        return
     nl = len(job["listings"])
     if job.get("pairs", "all") == "all":
         per_rule = [(ri, list(range(nl))) for ri in range(len(job["rules"]))]
@@ -182,7 +237,6 @@ def main():
         for ri, li in job["pairs"]:
             d.setdefault(ri, []).append(li)
         per_rule = sorted(d.items())
-    procs = int(job.get("procs", min(16, os.cpu_count() or 4)))
     nchunks = max(1, min(len(per_rule), procs * 8))
     chunks = [per_rule[i::nchunks] for i in range(nchunks)]
     _G.update(job=job, lp=listing_paths, tmp=tmp)
